@@ -4,7 +4,7 @@ import DiscretModel.Gen.ServeTable
 import DiscretModel.Model.Handshake
 /-
 Model driver for engine `serve` (C08, C19). Same op files as `dv-serve run`.
-C08 (case … prop=C08): room / member / row / ref / delref / delrow / open / auth / now / q — see
+C08 (case … prop=C08): room / group / member / row / ref / delref / delrow / open / auth / now / q — see
 harness/serve/src/c08.rs. The request table, the membership re-check and the event rule are `Gen.code`
 (`Gen/ServeTable.lean`, regenerated from the source on every run); the switches are `Defects.asImplemented`. C19 ops are handled by `Driver/ServeHs` below.
 Anything malformed -> "bad-op".
@@ -110,6 +110,9 @@ def query? (toks : List String) : Option Query :=
   | some "PeersForRoom" => (nat? toks "r").map .peersForRoom
   | _ => none
 
+/-- the identifier of group `g` of room `r` (group 0 is created with the room) -/
+def groupId (r g : Nat) : Nat := if g = 0 then r else 1000 * g + r
+
 def redate (rows : List Row) (id : Nat) (t : Int) : List Row :=
   rows.map fun x => if x.id = id then { x with mdate := t } else x
 
@@ -133,25 +136,42 @@ def stepOp (s : St) (kind : String) (toks : List String) : St × String :=
         let s2 := { s1 with known := r :: s.known, w := { s1.w with rows := s1.w.rows ++ [⟨900 + r, none, 2, t⟩] } }
         (install s2 room, "ok")
     | _, _ => (s, "bad-op")
+  | "group" =>
+    match nat? toks "r", nat? toks "g", int? toks "t" with
+    | some r, some g, some t =>
+      match s.w.room? r with
+      | none => (s, "bad-op")
+      | some room =>
+        if g = 0 || r = 0 || (room.getAuth (groupId r g)).isSome || !timeOk t then (s, "bad-op")
+        else
+          let grp : Auth := { id := groupId r g, mdate := t, users := [], rights := [Right.new t 1 true true], userAdmins := [] }
+          match room.addAuth grp with
+          | .ok room' => (install (atT t) room', "ok")
+          | .error _ => (s, "bad-op")
+    | _, _, _ => (s, "bad-op")
   | "member" =>
-    match nat? toks "r", nat? toks "k", int? toks "t", flag? toks "en", kv? toks "role" with
-    | some r, some k, some t, some en, some role =>
+    let g? : Option Nat := match kv? toks "g" with
+      | none => some 0
+      | some x => x.toNat?
+    match nat? toks "r", nat? toks "k", int? toks "t", flag? toks "en", kv? toks "role", g? with
+    | some r, some k, some t, some en, some role, some g =>
       match s.w.room? r with
       | none => (s, "bad-op")
       | some room =>
         let entry : Option Room.Entry := match role with
           | "admin" => some (.admin ⟨k, t, en⟩)
-          | "user" => some (.user r ⟨k, t, en⟩)
-          | "useradmin" => some (.userAdmin r ⟨k, t, en⟩)
+          | "user" => some (.user (groupId r g) ⟨k, t, en⟩)
+          | "useradmin" => some (.userAdmin (groupId r g) ⟨k, t, en⟩)
           | _ => none
         match entry with
         | none => (s, "bad-op")
         | some e =>
-          if !timeOk t then (s, "bad-op")
+          if (room.getAuth (groupId r g)).isNone then (s, "bad-op")
+          else if !timeOk t then (s, "bad-op")
           else match room.addEntry? e with
             | some room' => (install (atT t) room', "ok")
             | none => (atT t, "err:mutation")
-    | _, _, _, _, _ => (s, "bad-op")
+    | _, _, _, _, _, _ => (s, "bad-op")
   | "row" =>
     let room : Option (Option RoomId) := match kv? toks "r" with
       | some "-" => some none
@@ -247,7 +267,7 @@ def stepLine (m : Mode) (line : String) : Mode × String :=
   | kind :: rest =>
     match m with
     | .c08 s =>
-      if ["now", "room", "member", "row", "ref", "delref", "delrow", "open", "auth", "q"].contains kind then
+      if ["now", "room", "group", "member", "row", "ref", "delref", "delrow", "open", "auth", "q"].contains kind then
         let (s', o) := Drv08.stepOp s kind rest; (.c08 s', o)
       else (m, "bad-op")
     | .c19 s => let (s', o) := Discret.Handshake.Drv.stepOp s kind rest; (.c19 s', o)
